@@ -11,12 +11,13 @@ C14_COLOURS = "[style.colors]\nprimary = \"#000000\"\nerror = \"#FFfe01\"\nhighl
 PROPS = {
     "C01": {
         "timeouts_not_mine": True,
-        "lean_modules": ["Props.Clean", "Props.Cells", "Props.Facts19", "Props.C01p", "Props.Gen01p", "Props.GenT01p"],
+        "lean_modules": ["Props.Clean", "Props.Cells", "Props.Facts19", "Props.C01p", "Props.Gen01p", "Props.GenT01p", "Props.Gen15h", "Props.GenT15h"],
         "groups": [{"name": "render", "quick": 2500, "thorough": 60000}, {"name": "C01misc", "quick": 2000, "thorough": 60000},
                    {"name": "C14", "quick": 1500, "thorough": 40000}, {"name": "C06", "quick": 1200, "thorough": 30000, "workers": 12},
                    {"name": "present", "quick": 800, "thorough": 20000, "workers": 12},
                    # whole worlds browsed over the network: items whose error texts quote what a server sent (junk status lines)
                    {"name": "C02P", "quick": 500, "thorough": 15000, "workers": 8}],
+        "rule_more": '; whole worlds browsed over the simulator (group C02P, predicate-only): every Name/String/Preview of the items, children and parents shown, with actor servers that answer with junk status lines carrying ESC/CSI/OSC/C1 bytes',
         "rule": "documents from grammars of HTML (inline styles, links, media, blockquotes, lists, headings, pre, hr, unknown tags, character-reference and raw control-character injections), Markdown, gemtext and plain text with URLs x sequences of 1..4 widths (-3..250); "
                 "error text quoting hostile status lines / media types / raw control characters through style.Problem; Scrub and SetLength on raw text with C0, DEL, C1, ESC, tabs; style expressions followed by layout pipelines; "
                 "C01misc: every second op takes the next of all C0 / DEL / C1 code points (then bidi, zero-width, line-separator, tag and annotation characters, which are printable for code and model alike), alone or as the introducer of a CSI / OSC / DCS / APC / PM / SOS sequence with BEL / ST terminators, at the start, in the middle, at the end and right at / before / after the cut of SetLength, inside the error texts that quote server bytes; "
@@ -28,7 +29,7 @@ PROPS = {
     },
     "C12": {
         "timeouts_not_mine": True,
-        "lean_modules": ["Props.C20b", "Props.Gen20", "Props.GenT20", "Props.Gen12", "Props.GenT12", "Props.Gen15", "Props.GenT15"],
+        "lean_modules": ["Props.C20b", "Props.Gen20", "Props.GenT20", "Props.Gen12", "Props.GenT12", "Props.Gen15", "Props.GenT15", "Props.Gen15h", "Props.GenT15h"],
         # which link a typed number opens (and what a failing or slow hook leaves of the number being typed) is what the interface model says
         "correspondence_is_failure": {"ui": True},
         "groups": [{"name": "render", "quick": 3000, "thorough": 80000}, {"name": "mediaL", "quick": 600, "thorough": 20000, "workers": 12},
@@ -48,7 +49,7 @@ PROPS = {
     },
     "C14": {
         "timeouts_not_mine": True,
-        "lean_modules": ["Props.Cells", "Props.Clean", "Props.C01p", "Props.Gen14", "Props.Gen13", "Props.GenT13"],
+        "lean_modules": ["Props.Cells", "Props.Clean", "Props.C01p", "Props.Gen14", "Props.Gen13", "Props.GenT13", "Props.Gen15h", "Props.GenT15h"],
         "groups": [{"name": "C14", "quick": 3000, "thorough": 80000}, {"name": "render", "quick": 1200, "thorough": 30000},
                    # the same under configured colours (what style.Color/Red/Code/Highlight read is the configuration, not a constant)
                    {"name": "C14", "quick": 1500, "thorough": 40000, "workers": 6, "config": C14_COLOURS},
@@ -58,6 +59,7 @@ PROPS = {
                    {"name": "C07", "quick": 96, "thorough": 2500, "workers": 16},
                    # whole worlds browsed over the network: items whose error texts quote what a server sent (junk status lines)
                    {"name": "C02P", "quick": 500, "thorough": 15000, "workers": 8}],
+        "rule_more": '; whole worlds browsed over the simulator (group C02P, predicate-only), actor servers answering with junk status lines',
         "rule": "style expressions (nesting and concatenation of the eight style functions over texts with newlines at the start, at the end and doubled, blanks of every unicode.IsSpace kind, wide, combining and invisible characters, sentences long enough to wrap; a third of them at least three levels deep around already styled concatenations that span line breaks) "
                 "optionally followed by 0..3 (one in ten: 4..7) layout steps (wrap, dumbwrap, pad, indent with seven prefixes incl. a styled one, snip to heights 0..10, quote, header of levels 0..7, bullet, code block, link and linkblock with numbers of 1..10 digits, a further style function around the laid-out text) at widths 1..24 and 0, 40..250; "
                 "run under the default colours and under a configuration with four other colours (the colours in force travel with the op); a terminal state machine is run on the implementation's output: per-character attributes must equal the enclosing style functions, and no attribute may be active at a line break or at the end; "
@@ -68,6 +70,7 @@ PROPS = {
     },
     "C02": {
         "groups": [{"name": "C02", "quick": 1200, "thorough": 40000, "workers": 12}],
+        "rule_more": "; worlds with an upper post on another host that carries no id and inlines an author whose id names the reply's host; notes without id; every document fetched again after browsing; everything shown judged for safe and neutral output",
         "rule": "multi-host worlds over five loopback TLS hosts plus a sixth authority that is the first host's address under another port: two actors on different hosts (or on authorities that differ by port only), a forged actor document, a second document on the victim's own host claiming the victim's id, the attacker's own actor and note under the very paths the victim's have, a thread of notes with replies, a replies collection and a paged outbox, where every reference is chosen among URL, embedded copy (stamped by the embedding host; with its id, with its id spelled differently, without any id), stub of <= 2 keys, redirect; "
                 "URLs and ids are sometimes spelled with userinfo, an upper-case or http scheme, a fragment, the host's address under an unused port or without a port, relative to the referring object (/path, name, ./name, ../dir/name, //host/path, ?query, the empty string, '.', '#top') or with dot segments; actor / inReplyTo are sometimes written as lists of one or two, attributedTo lists and collection entries also hold null, numbers, booleans, nested lists, empty objects, bare notes, unparsable and non-https URLs; ids sometimes lie about their host; authors/actors/reply targets are sometimes impostors; "
                 "one world in six is a collection opened directly whose pages live at URLs of their own on several hosts (chains that end, that come back to themselves / the first page / the root / the page before, next behind a redirect or on another host, pages with, without or with a foreign id, first on pages and next on roots, runs of empty pages, sizes that lie); start object chosen among all; the first harvest (0..20 items) is sometimes continued by 1..3 more on the continuation it returned (amounts 0..5); "
@@ -80,10 +83,12 @@ PROPS = {
         "shrink_budget": 3,
     },
     "C06": {
+        "lean_modules": ["Props.Gen15h", "Props.GenT15h"],
         "groups": [{"name": "C06", "quick": 1500, "thorough": 40000, "workers": 12}, {"name": "renderdeep", "quick": 192, "thorough": 8000, "workers": 12},
                    {"name": "render", "quick": 800, "thorough": 20000}, {"name": "presentP", "quick": 800, "thorough": 20000, "workers": 12},
                    # asking for an item's children in several steps (continuations, offsets into a page): every step returns
                    {"name": "C10P", "quick": 800, "thorough": 20000, "workers": 8}],
+        "rule_more": '; group C10P: the paging scripts (continuations, offsets into a page, old continuations asked again) judged by returning normally',
         "rule": "JSON objects with the ActivityStreams keys filled with right- and wrong-typed values (types from all kinds incl. Tombstone/bogus, markup bodies in the four media types incl. 10..70 nested blockquotes, huge/negative/fractional numbers, malformed URLs and timestamps, embedded parents up to depth 3, collections with bogus entries, dead references to a closed port), built as post/actor/activity/any and then every Tangible method called at widths -50..300 and link numbers 0, +-1, 2^31, +-2^63; deep nesting of every block/inline tag to depth 5..65 at widths -1..80; "
                 "one renderdeep case in three is wide rather than deep (predicate-only): single lines of 10^4..10^5 characters in all four markups (styled stretches up to 14 000 characters), 60..3000 siblings (paragraphs, line breaks, list items, bold words, links, images, rules, headings, table cells, gemtext and plain-text lines), attribute values of 5 000..50 000 characters (href, src, alt, title, unknown attributes, 300 attributes on one element), "
                 "ordinary documents at widths 300..4096, 65535, 2^31-1, 2^31, 2^32+7, 2^62, 2^63-1, -80, -65535, -2^31, -2^63+70000 (documents with <pre> or <hr>, whose output is as wide as the width: 300..2000), inline nesting of 50..500 levels around a few characters, <pre> / fenced blocks of 10..100 short lines with lines x width <= 8000; "
@@ -105,6 +110,7 @@ PROPS = {
                    {"name": "C07", "quick": 24, "thorough": 1500, "workers": 2, "config": "[network]\npreload_amount = 1\n"},
                    {"name": "C07", "quick": 24, "thorough": 1500, "workers": 2, "config": "[network]\npreload_amount = 2\n"},
                    {"name": "C07", "quick": 24, "thorough": 1500, "workers": 2, "config": "[network]\npreload_amount = 12\ncache_size = 3\n"}],
+        "rule_more": '; a third of the sessions run with a hook that names %mimetype/%subtype/%supertype, media links carry strings that are no media type',
         "rule": "worlds over the TLS simulator: a thread of 1..8 notes (plain-text bodies containing URLs of other objects, so numbered links can be opened), a paged reply collection under the leaf (incl. an empty first page, comments answering another post, a missing collection), two actors on different hosts, multi-author posts (a foreign-host author turns the post into an error item), a paged outbox of 0..13 activities (some by another actor), an empty collection, a 404; started with Subcommand(open, <start>) and driven by 3..27 key tokens: j k g h l space c r a o p b, numbers followed by . / Enter / Esc / Backspace / another key (0, over-long numbers), :open <url>, :feed, bogus commands, arbitrary bytes, terminal resizes between keys and in the middle of typing (often one dimension only); "
                 "added by the generator review: raw bytes that are not UTF-8 (BYTES tokens, also as whole command lines and after :open / :feed), numbers with leading zeros, with more digits than there are links, at the edges of int32/int64/uint64 and followed by every kind of key, notes with 9..13 links (two-digit numbers name links), "
                 "Escape / Backspace at a random point of a partially typed command or number with the rest typed all the same, :open and :feed with odd arguments (empty, spaces only, leading/trailing space, other letter case, 150..550 characters, fragment, query, other scheme, no scheme, @ and ! and file forms, non-ASCII, NUL, two commands in one token), "
@@ -144,6 +150,7 @@ PROPS = {
         "groups": [{"name": "C02", "quick": 1200, "thorough": 40000, "workers": 12},
                    # listings as the interface shows them: pages loaded in the background while the reader moves on
                    {"name": "C07", "quick": 72, "thorough": 2000, "workers": 12}],
+        "rule_more": '; the author predicate also judges the post an activity is about',
         "rule": "the same multi-host worlds as C02 (outboxes and reply collections mixing legitimate entries with other-actor activities, other-parent comments, foreign-host authors, missing ids/actors/reply targets, embedded vs referenced, failing fetches; actors and reply targets that are the owner's in another spelling (userinfo, fragment, scheme), under the same path on another host, on the same address under another port, a same-host document claiming the owner's id; actor / inReplyTo written as lists; entries that are no references or no activities at all: null, numbers, nested lists, bare notes; listings continued over several requests); "
                 "compared: per-position classification of every listed entry; predicates on the implementation's output: a listed activity's actor id equals the owner's id, a listed reply's parent id equals the post's id, authors share the post's host (the authority url.Parse reads out of the two ids); non-trivial = at least one child or ancestor is listed; distinct by op content",
         "trusted": ["as C02", "extract/go2lean14.go and Model/GoPub.lean (translation of the listing filters)"],
@@ -165,6 +172,7 @@ PROPS = {
                    {"name": "C02", "quick": 300, "thorough": 10000, "workers": 8},
                    # items built twice from one decoded document: the document is afterwards what it was
                    {"name": "rebuild", "quick": 400, "thorough": 15000, "workers": 12}],
+        "rule_more": '; whole worlds browsed and every document then fetched again (the cache hands out the object items were built from); op rebuild: an item built twice from one decoded document whose lists start with null / the public pseudo-collection / empty objects',
         "rule": "status / Content-Type / Location lines and header blocks from a grammar with mutations (case, blanks, CR, missing newline, odd versions and codes); worlds of 1..4 documents and 0..22 redirects over five loopback TLS hosts plus a host reached by name, one by IPv6 literal and one on the default port "
                 "(relative ('x', './x', '../d/x', '//host/x') and cross-host Locations, Locations with fragments, non-https hops, missing/unparsable Location, two Location lines, a Location on a 2xx/4xx response, self loops and cycles, every 3xx code from 300 to 310 and 399, status codes next to 200-203, "
                 "odd status lines, content types, bodies incl. nesting beyond the decoder's limit, two values, duplicate keys, a BOM) under redirect budgets 0, 1, 2, 3, 5 and 20 with chains of budget-1, budget, budget+1 and budget+2 hops fetched cold, with the final document cached, with the last redirect cached and with every link cached; "
@@ -185,6 +193,7 @@ PROPS = {
                    {"name": "C02", "quick": 400, "thorough": 12000, "workers": 8},
                    # several webfinger lookups in flight at once, for accounts on different hosts (a feed of @user@host sources opening)
                    {"name": "C04par", "quick": 120, "thorough": 4000, "workers": 8}],
+        "rule_more": '; group C04par: two to six webfinger lookups for accounts on different hosts in flight together (started 0..4 ms apart, servers delayed up to 10 ms): every request compared with the query of the host its connection arrived at',
         "rule": "fetches of URLs with hostile paths and queries (raw and encoded CR/LF and LF alone, a whole second request encoded in path or query, spaces, %00, fragments, escaped delimiters %2F %3F %23 %25, broken escapes, non-ASCII, brackets and braces, dot segments, request targets of 1.5 kB to 280 kB), "
                 "userinfo of every shape (also carrying encoded CR/LF or a header name), upper-case scheme, non-https and look-alike schemes, scheme-less references, authorities spelled other ways (a name in other letter case or with a trailing dot, IPv6 literals in two spellings, with a zone, IPv4-mapped; the default port absent, written, empty, with a leading zero; a wrong port; IDN and percent-encoded names), "
                 "redirects to plaintext (absolute, scheme-relative, upper-case) and to Locations carrying CR/LF, userinfo or a tab, a plaintext canary listener; webfinger lookups with hostile account and domain parts (CR, LF, CR/LF raw and encoded, tabs, NUL, spaces, '#', '?', userinfo, unresolvable names, 4.8 kB accounts, the name / IPv6 / default-port hosts); "
@@ -225,6 +234,7 @@ PROPS = {
                    # remote pages over the simulator (pages named by URL, on other hosts, URLs that differ in letter case only,
                    # cyclic chains, relative `next`, continued harvests; see the rule of C02)
                    {"name": "C02", "quick": 960, "thorough": 30000, "workers": 12}],
+        "rule_more": "; a third of the scripts reach the collection through its owner's key (getCollection under outbox/replies/comments), roots with and without totalItems",
         "rule": "page chains of 0..18 embedded pages (Collection/OrderedCollection, items on the root and/or pages, empty pages with varying bias and layouts with runs of exactly 1..4 empty pages between full ones (the root counting), absent/null/single-value items, the key of the other flavour (items vs orderedItems) present as a decoy, totalItems of every JSON type on roots and pages, first on pages and next on roots, wrong page types, chains ending in a non-https reference, a non-object, a non-collection or an object that would need re-fetching) x request-size sequences (one large request, constant small requests, random sizes incl. 0, sizes 0 / 1 / total-1 / total / total+1 / 2*total) x start offsets x scripts in which the latest continuation is asked again and older continuations are asked after newer ones exist; "
                 "non-trivial = at least three pages visited; distinct by op content",
         "trusted": ["encoding/json decoding (typed tree shipped to the model)",
@@ -241,6 +251,7 @@ PROPS = {
                    {"name": "C07", "quick": 128, "thorough": 4000, "workers": 16},
                    # the order of a feed's sources as the configuration file lists them is the order the splicer is given
                    {"name": "C19", "quick": 1500, "thorough": 40000}],
+        "rule_more": '; configuration files with [feeds] whose sources are unsorted and repeated: the parsed feeds keep the listed order (group C19)',
         "rule": "0..4 sources of 0..7 items, one of them sometimes 15..44 items long (newest-first with ties, or unsorted; missing timestamps; empty and nil sources; the same item listed by two sources) over exact-delivery synthetic containers, flat or paged like a collection (every page a container of its own, continuation = page + offset); timestamp classes: whole seconds, differences below one second, equal instants written in different zones, far past / far future around and before the zero time, every source carrying the same few instants; x scripts of 1..6 harvests (sizes 0..6 and 1 / total-1 / total / total+1, start offsets, 'again' = the same position asked twice, 'old' = an earlier continuation asked after newer ones exist, 'par' = four concurrent askers); "
                 "non-trivial = at least two sources and three delivered items; distinct by op content",
         "trusted": ["slice aliasing in Splicer.clone (shared backing arrays) is modelled by value semantics; 'again' steps re-harvest old positions to exercise it",
@@ -252,7 +263,10 @@ PROPS = {
         "groups": [{"name": "C13", "quick": 6000, "thorough": 200000},
                    # the layout functions called from several goroutines at once (loaders render while frames are drawn)
                    {"name": "C13par", "quick": 60, "thorough": 3000, "workers": 4},
-                   {"name": "C13x", "quick": 0, "thorough": 6, "workers": 1}, {"name": "unicodeall", "quick": 0, "thorough": 1, "workers": 1}],
+                   {"name": "C13x", "quick": 0, "thorough": 6, "workers": 1}, {"name": "unicodeall", "quick": 0, "thorough": 1, "workers": 1},
+                   # the layout functions as the renderers call them: whole documents laid out at sequences of widths
+                   {"name": "render", "quick": 800, "thorough": 20000}],
+        "rule_more": '; whole documents laid out at sequences of widths by the four renderers (group render)',
         "rule": "styled text from a cell grammar (words, runs of all IsSpace kinds, newlines, nested SGR attributes; 1 in 5 a hostile ESC/[/m string) x widths -3..250; "
                 "one case in six from the edges: one text wrapped at every width from 0 past its longest line (or at the widths around its line lengths and 80/120/200), paragraphs of 20..200 words with over-long words at 40..500 columns and through the wrap-then-snip pipeline, "
                 "a wide / combining / invisible / blank-looking (IsSpace and not) character at position w-1, w or w+1, snip with heights n-2..n+1, 0, -1, 1000, 65536 and widths equal to a line's length, one off, 0, -1, 65535, 2^31 over texts with blank lines at the end and in between and five ellipses, "
@@ -273,6 +287,7 @@ PROPS = {
                    {"name": "C03", "quick": 300, "thorough": 8000, "workers": 4},
                    # the decoded document after items were built from it: value for value what the accessors were given
                    {"name": "rebuild", "quick": 600, "thorough": 20000, "workers": 12}],
+        "rule_more": '; op rebuild: the decoded document after items were built from it twice (value for value what it was), lists starting with null / public pseudo-collection / empty objects / numbers',
         "rule": "JSON documents with null/bool/number/string/array/object under keys k, m, z (numbers from two edge pools around 0, +-1, signed zeros, subnormals, 2^31, 2^32, 2^53, 2^63, 2^64 and their neighbouring doubles, zero fractions, cancelling exponents, over-long digit strings, random bit patterns and integers around powers of two; strings with control characters, timestamps, URLs, media types) x every accessor x present/absent keys; "
                 "half of the cases choose the accessor first and file under the key a value of the vocabulary it parses (RFC 3339 corners: leap second, offsets to +-24:00, lower-case t/z, fraction digits with '.' and ',', years 0000..10000, impossible dates, padding; well-formed timestamps and token/token media types drawn field by field; about 120 URLs that parse oddly; the four renderable media types and their near misses for GetMarkup), "
                 "then possibly damage it: C0/C1/ESC/bidi/zero-width characters at one to three places, only-removed characters, case changes, blank padding, tails up to 100 000 characters, doubling; strings spelled with \\u escapes, surrogate pairs and lone surrogates; natural-language maps (tags empty, und, upper case, malformed), @value objects, nesting to depth 100, arrays and objects of thousands of members; "
@@ -311,7 +326,11 @@ PROPS = {
                    {"name": "C03", "quick": 120, "thorough": 4000, "workers": 4, "config": "[network]\ncache_size = 2\npreload_amount = 0\ntimeout_seconds = 0\n"},
                    # ... and the interface under the largest accepted sizes, and with nothing preloaded
                    {"name": "C07", "quick": 24, "thorough": 400, "workers": 8, "config": "[network]\npreload_amount = 2147483647\ncache_size = 9223372036854775807\n"},
-                   {"name": "C07", "quick": 24, "thorough": 400, "workers": 8, "config": "[network]\npreload_amount = 0\ncache_size = 1\n"}],
+                   {"name": "C07", "quick": 24, "thorough": 400, "workers": 8, "config": "[network]\npreload_amount = 0\ncache_size = 1\n"},
+                   # hooks that name the media type are accepted: links of every kind (typed, untyped, with something that is
+                   # no media type) opened through them
+                   {"name": "media", "quick": 400, "thorough": 12000, "workers": 12}],
+        "rule_more": '; configuration files with [feeds]; media histories (group media) through hooks that name the media type',
         "rule": "hexToAnsi on valid, near-valid (one bad digit, signs, underscores, wrong length, non-ASCII digits) and random strings; configuration files generated value-first (colours, preload_amount/timeout_seconds/cache_size from {-1000..1000} and from the edges of int32, of a duration in seconds and of int64, key names in other letter cases, values of other TOML types (durations as strings, floats, booleans, hex/octal/underscored integers, inline tables, dotted keys: the model starts from what the decoder produced), hooks of 0..3 arguments, unknown keys/tables, syntax errors, missing file) "
                 "then serialised to TOML and loaded by the real parse+postprocess; C19x walks the 16^6 colour space (a stride sample in quick, all of it in thorough); non-trivial = colour accepted / configuration not rejected by TOML itself; distinct by op content",
         "trusted": ["BurntSushi/toml decoding (the model starts from the decoded values; TOML-level rejections are the generator's ground truth)",
@@ -319,11 +338,15 @@ PROPS = {
         "assumptions": ["Config.Safe is the only configuration hypothesis used by the panic-freedom theorems of C06/C07/C20"],
     },
     "C20": {
+        # what the hook is handed is the subject of the property: the model's argv (Hook.build over the link
+        # and media type the selection model picks, C20b) is the argv the statement describes
+        "correspondence_is_failure": {"media": True, "hook": True},
         "lean_modules": ["Props.Facts19", "Props.C20b", "Props.Facts20", "Props.Gen20", "Props.GenT20", "Props.Gen20h", "Props.GenT20h", "Props.Gen03m", "Props.GenT03m", "Props.Gen12", "Props.GenT12"],
         "groups": [{"name": "C20", "quick": 600, "thorough": 20000, "workers": 12},
                    {"name": "media", "quick": 600, "thorough": 20000, "workers": 12},
                    # configuration files through the real parser: the hook that reaches openExternally is the configured one
                    {"name": "C19", "quick": 1000, "thorough": 20000}],
+        "rule_more": "; a difference between the argv the real hook received and the model's counts as a failure (ops hook and media)",
         "rule": "hooks of 1..5 arguments drawn from exact placeholders, embedded/near placeholders (--title=%subtype, %supertype/%subtype, %url%url, quoted, other letter case, truncated), dashes and empty strings, one placeholder repeated, every placeholder twice, every placeholder but %url, with the program itself sometimes named like a placeholder or by its absolute path; links with spaces, quotes, shell metacharacters, leading dashes, newlines, placeholder look-alikes, data: / file: / javascript: / mailto: / relative / blank links; media types given as the triple or as written in a document (parameters, upper case, structured suffix, several slashes, blanks, placeholders inside, none at all) through the real mime.Parse; "
                 "the real ui.openExternally runs a dump program that records argv and stdin; non-trivial = at least one argument after the program; distinct by op content; "
                 "media group: posts and actors built from documents with url / attachment / icon / image link lists (typed, untyped, malformed, shorthand strings) x histories of 3..9 openings (Media, SelectLink k, ProfilePic, Banner, one of them repeated) through the real selection code and the real openExternally; "
@@ -333,7 +356,7 @@ PROPS = {
     },
     "C15": {
         "timeouts_not_mine": True,
-        "lean_modules": ["Props.C13s", "Props.Gen15", "Props.GenT15"],
+        "lean_modules": ["Props.C13s", "Props.Gen15", "Props.GenT15", "Props.Gen15h", "Props.GenT15h"],
         "groups": [{"name": "render", "quick": 2500, "thorough": 60000},
                    # documents rendered from several goroutines at once
                    {"name": "renderpar", "quick": 40, "thorough": 1500, "workers": 4},
@@ -354,6 +377,7 @@ PROPS = {
                    {"name": "C08", "quick": 24, "thorough": 600, "workers": 12},
                    # the program itself (main.go as shipped) on a pseudo terminal that is resized and typed on
                    {"name": "mainpty", "quick": 24, "thorough": 600, "workers": 8}],
+        "rule_more": '; group mainpty: the shipped binary on a pseudo terminal, resized (widths 1..200, heights 2..120, back to the starting size) and typed on; after each step the frame at rest is counted',
         "rule": "prefix/centered/suffix of 0..8 styled lines each x heights 1..16; one layout in four with parts of nothing, of up to 40 styled lines, of 100..500 rows or of up to 300 empty lines above, at and below the cursor x heights 1..4, around the size of the centre and of centre + twice the part above / below (where the layout changes its case), the sum of all parts, 2..61 and 100..999; "
                 "ReplaceLastLine on frames of one line, of empty lines only and of hundreds of lines with an empty or a styled status line; status-line SetLength on raw text (control characters, often exactly as long as the width); the C07 sessions (all frames judged: tiny terminals, very tall items, every status line, hook output variants, loading frames drawn during held loads) and the C08 stress (frame height against the state's height at drawing time); "
                 "thorough: C16x = every geometry of 0..7 lines per part (0 = the empty string) x heights 1..16; non-trivial = height exceeds the centred text (buffers are computed); distinct by op content",
